@@ -372,12 +372,13 @@ func parseFuncContract(pkgPath, path string, head rawLine, clauses []rawLine) (*
 	hdr, forList := splitFor(strings.TrimSpace(head.text))
 	c := &Contract{PkgPath: pkgPath, File: path, Line: head.line, Header: hdr, Loops: map[int]*LoopSpec{}, For: forList, Opts: map[string]string{}}
 	fset := token.NewFileSet()
-	f, err := goparser.ParseFile(fset, "", "package p\n"+hdr+"\n", 0)
+	// parent$N names an anonymous function; '$' is not a Go identifier character
+	f, err := goparser.ParseFile(fset, "", "package p\n"+strings.ReplaceAll(hdr, "$", "ǁ")+"\n", 0)
 	if err != nil {
 		return nil, fmt.Errorf("%s:%d: cannot parse header %q: %v", path, head.line, hdr, err)
 	}
 	fd := f.Decls[0].(*ast.FuncDecl)
-	c.Name = fd.Name.Name
+	c.Name = strings.ReplaceAll(fd.Name.Name, "ǁ", "$")
 	if fd.Recv != nil && len(fd.Recv.List) > 0 {
 		r := fd.Recv.List[0]
 		rn := "_recv"
